@@ -171,7 +171,14 @@ def snapshot(fe, kernel, cp, dep, ignore_unknown, bits):
     except Exception:
         pass
     t["reprs"] = sorted(reprs.items())
-    t["sums"] = [[[num(x.latency_cp) for x in cp], call(lambda: format(sum([x.latency_cp for x in cp]), ""))]]
+    # str(sum(...)) over the numeric attributes of the CP lines (whichever of them the code sums)
+    t["sums"] = []
+    for attr in ("latency_cp", "latency", "throughput", "latency_lcd"):
+        vals = [getattr(x, attr, 0.0) for x in cp]
+        key = [num(v) for v in vals]
+        if all(isinstance(v, (int, float)) for v in vals) and key not in [k for k, _ in t["sums"]]:
+            t["sums"].append([key, call(lambda: format(sum(vals), ""))])
+            note(sum(vals))
     t["seplist"] = call(lambda: [str(s) for s in fe._get_separator_list("|")])
     t["maxlen"] = call(lambda: [int(v) for v in fe._get_max_port_len(kernel)])
     t["portline"] = call(lambda: fe._get_port_number_line(fe._get_max_port_len(kernel), separator="|"))
@@ -431,28 +438,107 @@ def gen_report_input(rng):
     return fe, kernel, cp, dep, rng.random() < 0.5, [rng.random() < 0.5 for _ in range(3)]
 
 
-def unit_cases(rng, n):
-    """inputs for single methods (error paths included): -> (Gallina check terms, histogram)"""
+# ------------------------------------------------------------------------------------------- unit-level oracles (no model)
+def oracle_port_pressure(ports, vs, used, sep, out):
+    """what the property says about one printed pressure line (all separators '|'): a cell is blank iff the value is zero and the
+    port is not used; a shown cell is the value at the decimals it shows"""
+    found = []
+    if not isinstance(out, str) or not all(s == "|" for s in (sep if isinstance(sep, list) else [sep])) or len(ports) < len(vs):
+        return found
+    cells = (out + " ").split("|")[1:-1]
+    if len(cells) != len(vs):
+        return [("unit-pressure-line-layout", "%d cells printed for %d values: %r" % (len(cells), len(vs), out))]
+    for p, v, c in zip(ports, vs, cells):
+        c, v = c.strip(), float(v)
+        if c == "":
+            if v != 0.0 or p in used:
+                found.append(("unit-pressure-cell-blank-but-nonzero-or-used", "port %s value %r used=%s printed blank in %r" % (p, v, p in used, out)))
+        elif v == 0.0 and p not in used:
+            found.append(("unit-pressure-cell-shown-for-unused-zero", "port %s shows %r in %r" % (p, c, out)))
+        elif v == v and abs(v) != float("inf") and not ("." in c and len(c.split(".")[1]) >= 1 and c == "{:.{}f}".format(v, len(c.split(".")[1]))):
+            found.append(("unit-pressure-cell-differs-from-value", "port %s value %r printed %r" % (p, v, c)))
+    return found
+
+
+def judge_unit(kind, args, r):
+    """-> [(key, what)] for one unit case; r = call(...) result of the Python method"""
+    if r[0] != "ok":
+        return []
+    out = r[1]
+    if kind == "port_pressure":
+        ports, vs, plens, used, sep = args
+        return oracle_port_pressure(ports, vs, used, sep, out)
+    if kind == "flags":
+        fs = args[0]
+        want = "".join(sym for sym, f in (("*", "not_bound"), ("X", "tp_unknown"), ("P", "hidden_load")) if f in fs) or " "
+        if ("X" in out) != ("tp_unknown" in fs):
+            return [("unit-x-mark-differs-from-unknown", "flags %s -> %r" % (fs, out))]
+        return [] if out == want else [("unit-flag-symbols-differ", "flags %s -> %r" % (fs, out))]
+    if kind == "missing":
+        import re
+        m = re.findall(r"The performance data for (\S+) instructions is missing\.", out)
+        return [] if m == [str(args[0])] else [("unit-missing-data-count-wrong", "amount %d -> %r" % (args[0], m))]
+    if kind == "header":
+        a, l = args
+        got = ("WARNING: No micro-architecture was specified" in out, "WARNING: You are analyzing a large amount of instruction forms" in out)
+        return [] if got == (a, l) else [("unit-warning-iff-violated", "arch_warning=%s length_warning=%s -> blocks %s" % (a, l, got))]
+    if kind == "footer":
+        got = "WARNING: LCD analysis timed out" in out
+        return [] if got == args[0] else [("unit-warning-iff-violated", "lcd_warning=%s -> block %s" % (args[0], got))]
+    return []
+
+
+def call_unit(kind, args):
+    fe = stub_frontend(args[0] if kind == "port_pressure" else ["0", "1"])
+    if kind == "port_pressure":
+        return call(lambda: fe._get_port_pressure(args[1], args[2], args[3], args[4]))
+    f = {"flags": fe._get_flag_symbols, "missing": fe._missing_instruction_error, "header": fe._user_warnings_header,
+         "footer": fe._user_warnings_footer}[kind]
+    return call(lambda: f(*args))
+
+
+def replay_unit(ctx, obj):
+    u = obj["replay"]["unit"]
+    r = call_unit(u["kind"], u["args"])
+    ctx.count()
+    found = judge_unit(u["kind"], u["args"], r)
+    ctx.log("replay unit %s%r -> %r: %s" % (u["kind"], tuple(u["args"]), r[1] if r[0] == "ok" else r, [k for k, _ in found] or "none"))
+    for key, what in found:
+        if key == obj["key"]:
+            ctx.violation(key, what, obj["replay"])
+            break
+
+
+def unit_cases(rng, n, ctx=None):
+    """inputs for single methods (error paths included): -> (Gallina check terms, histogram); every Python result is also
+    judged by the unit-level oracles above (a finding is a concrete failing input with its own replay)"""
     terms = []
+
+    def judged(kind, args, r):
+        if ctx is not None:
+            ctx.count()
+            for key, what in judge_unit(kind, args, r):
+                ctx.violation(key, "Frontend.%s%r: %s" % (kind, tuple(args), what), {"unit": {"kind": kind, "args": list(args)}})
+        return r
     hist = {"port_pressure_ok": 0, "port_pressure_err": 0, "lcd_cp": 0, "flags": 0, "missing": 0, "warnings": 0, "node": 0}
     # _get_flag_symbols: every subset of the flag set (in a shuffled order), plus repetitions
     fe = stub_frontend(["0", "1"])
     for m in range(128):
         fs = [f for i, f in enumerate(FLAGS) if m >> i & 1]
         rng.shuffle(fs)
-        r = call(lambda: fe._get_flag_symbols(fs))
+        r = judged("flags", [list(fs)], call(lambda: fe._get_flag_symbols(fs)))
         terms.append('[("flags", res_eqb String.eqb (g_get_flag_symbols %s) %s)]' % (lst(cs(f) for f in fs), res(r, cs)))
         hist["flags"] += 1
     for amount in [0, 1, 2, 9, 10, 11, 99, 100, 101, 999, 1000, 12345, 10 ** 9, -1, -12]:
-        r = call(lambda: fe._missing_instruction_error(amount))
+        r = judged("missing", [amount], call(lambda: fe._missing_instruction_error(amount)))
         terms.append('[("missing", res_eqb String.eqb (g_missing_instruction_error %s) %s)]' % (z(amount), res(r, cs)))
         hist["missing"] += 1
     for a in (False, True):
         for l in (False, True):
-            r = call(lambda: fe._user_warnings_header(a, l))
+            r = judged("header", [a, l], call(lambda: fe._user_warnings_header(a, l)))
             terms.append('[("header", res_eqb String.eqb (g_user_warnings_header %s %s) %s)]' % (b(a), b(l), res(r, cs)))
             hist["warnings"] += 1
-        r = call(lambda: fe._user_warnings_footer(a))
+        r = judged("footer", [a], call(lambda: fe._user_warnings_footer(a)))
         terms.append('[("footer", res_eqb String.eqb (g_user_warnings_footer %s) %s)]' % (b(a), res(r, cs)))
         hist["warnings"] += 1
     for _ in range(n):
@@ -465,7 +551,7 @@ def unit_cases(rng, n):
         sep = rng.choice(["|", " ", "ab", None, None])
         if sep is None:
             sep = [rng.choice(["|", " "]) for _ in range(len(vs) + rng.choice([0, 0, 0, -1, 2]))]
-        r = call(lambda: fe._get_port_pressure(vs, plens, used, sep))
+        r = judged("port_pressure", [list(ports), list(vs), list(plens), list(used), sep], call(lambda: fe._get_port_pressure(vs, plens, used, sep)))
         reprs = sorted({float(v).hex(): repr(float(v)) for v in vs}.items())
         seps = "(SStr %s)" % cs(sep) if isinstance(sep, str) else "(SList %s)" % lst(cs(s) for s in sep)
         terms.append('[("port_pressure", res_eqb String.eqb (g_get_port_pressure %s (repr_of %s) %s %s %s %s) %s)]' % (
@@ -524,7 +610,7 @@ def cross_check(ctx, results):
         hist["dict_err"] += t["dict"][0] == "err"
     ctx.obligation("translation tie: the inputs of every report could be recorded", "harness", not errors, "\n".join(errors[:5]))
     chunks = [(terms[i:i + 10], names[i:i + 10]) for i in range(0, len(terms), 10)]
-    uterms, uhist = unit_cases(rng, ctx.n(150, 1000))
+    uterms, uhist = unit_cases(rng, ctx.n(150, 1000), ctx)
     unames = ["unit case #%d" % i for i in range(len(uterms))]
     chunks += [(uterms[i:i + 60], unames[i:i + 60]) for i in range(0, len(uterms), 60)]       # unit cases are small
     terms = terms + uterms
@@ -592,6 +678,13 @@ def run(ctx, results):
     os.makedirs(gendir, exist_ok=True)
     with open(os.path.join(gendir, ".c13gen.lock"), "w") as lf:
         fcntl.flock(lf, fcntl.LOCK_EX)
-        if regenerate_and_prove(ctx):
+        ok = regenerate_and_prove(ctx)
+        if ok:
             cross_check(ctx, results)
+    if not ok or any(not o["ok"] and o["name"].startswith("theorem") for o in ctx.obligations):
+        # the tie is broken: search for a concrete failing input of the methods themselves (unit-level oracles, 10x budget)
+        rng = random.Random("C13tie-search/%s" % ctx.seed)
+        _, hist = unit_cases(rng, ctx.n(1500, 10000), ctx)
+        ctx.coverage["c13tie_search"] = hist
+        ctx.log("translation tie broken: unit-level search over %d inputs" % sum(hist.values()))
     ctx.log("translation tie (regenerate, compile, re-prove, cross-check): %.1fs" % (time.time() - t0))
